@@ -83,8 +83,18 @@ fn sides(pure: bool, long_field: u128, short_field: u128) -> (u128, u128) {
     }
 }
 
-fn any_view() -> (View, [(u128, u128); 5], bool) {
-    let mut market: Market = bytemuck::Zeroable::zeroed();
+fn any_view() -> (Box<View>, [(u128, u128); 5], bool) {
+    let mut view: Box<View> = Box::new(View {
+        market: bytemuck::Zeroable::zeroed(),
+        meta: MarketMeta {
+            market_token_mint: Pubkey::new_from_array([9; 32]),
+            index_token_mint: Pubkey::new_from_array([8; 32]),
+            long_token_mint: Pubkey::new_from_array([1; 32]),
+            short_token_mint: Pubkey::new_from_array([1; 32]),
+        },
+        long_balance: kani::any(),
+        short_balance: kani::any(),
+    });
     let long_mint = Pubkey::new_from_array([1; 32]);
     let pure: bool = kani::any();
     let short_mint = if pure { long_mint } else { Pubkey::new_from_array([2; 32]) };
@@ -94,19 +104,14 @@ fn any_view() -> (View, [(u128, u128); 5], bool) {
         let (l, s): (u128, u128) = (kani::any(), kani::any());
         // a pure pool keeps everything in its first field (representation invariant, see C15)
         let s = if pure { 0 } else { s };
-        let ps = rv::raw_pool_storage_mut(&mut market, BALANCE_POOLS[i], false).expect("pool storage");
+        let ps = rv::raw_pool_storage_mut(&mut view.market, BALANCE_POOLS[i], false).expect("pool storage");
         let w: [u128; 4] = [0, if pure { 1 } else { 0 }, l, s];
         *ps = unsafe { std::mem::transmute::<[u128; 4], gmsol_store::states::PoolStorage>(w) };
         amounts[i] = sides(pure, l, s);
         i += 1;
     }
-    let meta = MarketMeta {
-        market_token_mint: Pubkey::new_from_array([9; 32]),
-        index_token_mint: Pubkey::new_from_array([8; 32]),
-        long_token_mint: long_mint,
-        short_token_mint: short_mint,
-    };
-    (View { market, meta, long_balance: kani::any(), short_balance: kani::any() }, amounts, pure)
+    view.meta.short_token_mint = short_mint;
+    (view, amounts, pure)
 }
 
 /// The solvency condition for one token, exactly as the property states it.
